@@ -309,7 +309,7 @@ def run(ctx):
         env["VERIF_REPLAY"] = os.path.abspath(ctx.replay)
     else:
         env["VERIF_CORPUS"] = os.path.join(os.path.dirname(os.path.dirname(os.path.abspath(__file__))), "harness", "corpus", "C12")
-        env["VERIF_CASES"] = 40000 if ctx.thorough else 4000
+        env["VERIF_CASES"] = 40000 if ctx.thorough else 2600
     rc, log, out = ctx.run_harness(binary, "TestVerifC12", env, timeout=3000)
     if rc != 0:
         ctx.oblige("harness-runs", False, log[-1500:])
@@ -665,7 +665,7 @@ def run(ctx):
                 cur = k
             case_of[k] = cur
 
-    def consumer_leg(pkg, files, name, test, outfile, quick_limit=8000):
+    def consumer_leg(pkg, files, name, test, outfile, quick_limit=5000):
         b = ctx.go_test_binary(pkg, files, name)
         if b is None:
             ctx.oblige("harness-builds:" + name, False, ctx.harness_error[-1200:])
@@ -753,7 +753,7 @@ def run(ctx):
                 creport("C12:consumer:duplicate-field-not-refused", "the same field id mapped by two presentation definitions was not refused", k)
 
     # wallet side: presenter.buildSubmission, then what the verifier does with its output
-    for r in consumer_leg(HOLDER_PKG, HOLDER_HARNESS, "c12holder", "TestVerifC12Holder", "holder.out", 6000):
+    for r in consumer_leg(HOLDER_PKG, HOLDER_HARNESS, "c12holder", "TestVerifC12Holder", "holder.out", 4000):
         if r["n"] not in ops_by_n:
             continue
         k, op = ops_by_n[r["n"]]
@@ -810,7 +810,7 @@ def run(ctx):
                 creport("C12:presenter:accepted-mapping-differs", f"verifier accepted {r.get('accepted')}, the wallet mapped {want}", k)
 
     # discovery client: Module.Search zips Match's results by index and resolves the constraint fields
-    for r in consumer_leg(DISC_PKG, DISC_HARNESS, "c12disc", "TestVerifC12Discovery", "discovery.out", 5000):
+    for r in consumer_leg(DISC_PKG, DISC_HARNESS, "c12disc", "TestVerifC12Discovery", "discovery.out", 3000):
         if r["n"] not in ops_by_n:
             continue
         k, op = ops_by_n[r["n"]]
